@@ -29,6 +29,7 @@ EXPLANATION = (
     "probe frames, dtype string aliases resolving at run time."
     ' (R16) every construction of a MultiIndex in the reader and MULTIINDEX_TEMPLATE supplies the options the property lists as serialisable (coerce, strict, ordered, name, unique); today none is (known findings).'
     " (R17) the datetime branch of the writer's and the reader's stat converter (handle_stat_dtype) is entered through dtypes.is_datetime - the predicate the statistics producer classifies with, which covers time-zone-aware columns - not by `.check()` against the naive DateTime dtype."
+    " (R18) the writer's per-statistic converter (the function that renders its own parameter with strftime, looked up in the source as written) returns the statistic itself or something obtained from it alone - never another value."
 )
 LEVEL_RULE = "one obligation per (attribute, hop) / template slot / dictionary key found in the current tree"
 FLOORS = {"R1": 90, "R2": 14, "R3": 20, "R4": 3, "R5": 5, "R6": 3, "R7": 3, "R8": 1, "R9": 1, "R10": 1, "R12": 2, "R13": 1, "R14": 1, "R15": 1}
